@@ -72,8 +72,14 @@ def is_subclass(name, base):
 _BUILTIN_BASES = {"AssertionError": "Exception", "ValueError": "Exception", "KeyError": "LookupError", "IndexError": "LookupError",
                   "LookupError": "Exception", "TypeError": "Exception", "AttributeError": "Exception", "NotImplementedError": "RuntimeError",
                   "RuntimeError": "Exception", "Exception": "BaseException", "GeneratorExit": "BaseException", "UnicodeDecodeError": "UnicodeError",
-                  "UnicodeError": "ValueError", "OSError": "Exception", "EnvironmentError": "Exception", "NameError": "Exception", "StopIteration": "Exception"}
+                  "UnicodeError": "ValueError", "OSError": "Exception", "EnvironmentError": "OSError", "NameError": "Exception", "StopIteration": "Exception",
+                  "InvalidOperation": "DecimalException", "DecimalException": "ArithmeticError", "ArithmeticError": "Exception", "ZeroDivisionError": "ArithmeticError",
+                  "TokenError": "Exception", "SyntaxError": "Exception", "IndentationError": "SyntaxError", "UnicodeEncodeError": "UnicodeError", "FileNotFoundError": "OSError",
+                  "IsADirectoryError": "OSError", "PermissionError": "OSError", "IOError": "OSError", "UnboundLocalError": "NameError", "RecursionError": "RuntimeError",
+                  "Error": "Exception", "error": "Exception", "XLRDError": "Exception", "BadZipFile": "Exception", "ParseError": "SyntaxError", "SystemExit": "BaseException", "KeyboardInterrupt": "BaseException"}
+_ALIASES = {"EnvironmentError": "OSError", "IOError": "OSError"}
 def _builtin_subclass(name, base):
+    name = _ALIASES.get(name, name); base = _ALIASES.get(base, base)
     while name is not None:
         if name == base: return True
         name = _BUILTIN_BASES.get(name)
